@@ -93,7 +93,8 @@ theorem bytesToBits_sliceD (data : List UInt8) (b L : Nat) :
 
 theorem soundAt_mk (d : Bits) (off n k : Nat) (bits : Bits) (err : Option Err) (hk : k ≤ n)
     (hb : bits = slice d off k) (hin : off + k ≤ d.length ∨ k = 0) (heof : err = some .eof → d.length ≤ off + k)
-    (hprog : err = none → 0 < n → off < d.length → 0 < k) (herr : err = none ∨ err = some .eof) :
+    (hprog : err = none → 0 < n → off < d.length → 0 < k) (herr : err = none ∨ err = some .eof)
+    (hend : d.length ≤ off → 0 < n → err ≠ none) :
     SoundAt d off n { n := k, bits := bits, err := err, q := 0 } := by
   have hl : bits.length = k := by
     rw [hb]; rcases hin with h | h
@@ -101,7 +102,7 @@ theorem soundAt_mk (d : Bits) (off n k : Nat) (bits : Bits) (err : Option Err) (
     · subst h; simp [slice_zero_len]
   refine ⟨by simp [hl], by simp [hl]; exact hk, by simp only [hl]; exact hb,
     by simp only [hl]; exact hin.imp id (fun h => by subst h; rw [hb]; simp [slice_zero_len]),
-    by simp only [hl]; exact heof, ?_, ?_, rfl⟩
+    by simp only [hl]; exact heof, ?_, hend, ?_, rfl⟩
   · intro h1 h2 h3 h4
     have := hprog h1 h2 h3
     simp only at h4
@@ -113,11 +114,12 @@ theorem soundAt_mk (d : Bits) (off n k : Nat) (bits : Bits) (err : Option Err) (
 theorem soundAt_none (d : Bits) (off n : Nat) (err : Option Err)
     (herr : (err = some .eof ∧ d.length ≤ off) ∨ (err = some .offset ∧ d.length < off)) :
     SoundAt d off n { err := err } := by
-  refine ⟨rfl, by simp, by simp [slice_zero_len], Or.inr rfl, ?_, ?_, ?_, rfl⟩
+  refine ⟨rfl, by simp, by simp [slice_zero_len], Or.inr rfl, ?_, ?_, ?_, ?_, rfl⟩
   · intro h; rcases herr with ⟨_, h2⟩ | ⟨h1, _⟩
     · simpa using h2
     · simp only at h; rw [h1] at h; cases h
   · intro h; simp only at h; rcases herr with ⟨h1, _⟩ | ⟨h1, _⟩ <;> (rw [h1] at h; cases h)
+  · intro _ _; rcases herr with ⟨h1, _⟩ | ⟨h1, _⟩ <;> simp [h1]
   · rcases herr with ⟨h1, _⟩ | ⟨h1, h2⟩
     · exact Or.inr (Or.inl h1)
     · exact Or.inr (Or.inr ⟨h1, h2, rfl⟩)
@@ -146,7 +148,7 @@ theorem ioBitsFinish_spec (data : List UInt8) (b s n : Nat) (hs : s < 8) (X : Li
     · simp only [hal, and_self, if_true]
       have hs0 : s = 0 := by omega
       subst hs0
-      refine ⟨_, rfl, soundAt_mk _ _ _ _ _ _ (Nat.le_refl _) ?_ hin (by simp) (by intros; omega) (Or.inl rfl)⟩
+      refine ⟨_, rfl, soundAt_mk _ _ _ _ _ _ (Nat.le_refl _) ?_ hin (by simp) (by intros; omega) (Or.inl rfl) (by intro h1 h2; rw [hbl] at h1; omega)⟩
       rw [List.take_left' rfl, bytesToBits_sliceD, Nat.add_zero]
       have : 8 * (slice data b W).length = n := by omega
       rw [this]
@@ -155,7 +157,7 @@ theorem ioBitsFinish_spec (data : List UInt8) (b s n : Nat) (hs : s < 8) (X : Li
       rw [ioBitsExtract_spec _ _ _ (by rw [List.length_append] at hX ⊢; omega)]
       simp only [ok_bind]
       exact ⟨_, rfl, soundAt_mk _ _ _ _ _ _ (Nat.le_refl _) (in_D data b W s n X (by omega)) hin (by simp)
-        (by intros; omega) (Or.inl rfl)⟩
+        (by intros; omega) (Or.inl rfl) (by intro h1 h2; rw [hbl] at h1; omega)⟩
   · simp only [hfull, if_false]
     have hDd : (slice data b W).length = data.length - b := by rw [hDl]; rw [hDl] at hfull; omega
     by_cases h0 : (slice data b W).length = 0
@@ -173,7 +175,7 @@ theorem ioBitsFinish_spec (data : List UInt8) (b s n : Nat) (hs : s < 8) (X : Li
       · simp only [hal, and_self, if_true]
         have hs0 : s = 0 := by omega
         subst hs0
-        refine ⟨_, rfl, soundAt_mk _ _ _ _ _ _ (by omega) ?_ hin (by intro _; rw [hbl]; omega) (by intro h; cases h) (Or.inr rfl)⟩
+        refine ⟨_, rfl, soundAt_mk _ _ _ _ _ _ (by omega) ?_ hin (by intro _; rw [hbl]; omega) (by intro h; cases h) (Or.inr rfl) (by simp)⟩
         rw [List.take_left' rfl, bytesToBits_sliceD, Nat.add_zero, Nat.sub_zero]
         exact List.take_of_length_le (by rw [slice_length _ _ _ (by rw [hbl]; omega)]; omega)
       · simp only [hal, if_false]
@@ -181,7 +183,7 @@ theorem ioBitsFinish_spec (data : List UInt8) (b s n : Nat) (hs : s < 8) (X : Li
         simp only [ok_bind]
         exact ⟨_, rfl, soundAt_mk _ _ _ _ _ _ (by omega)
           (in_D data b W s (8 * (slice data b W).length - s) X (by omega)) hin (by intro _; rw [hbl]; omega)
-          (by intro h; cases h) (Or.inr rfl)⟩
+          (by intro h; cases h) (Or.inr rfl) (by simp)⟩
 
 /-- C01: ReadBitsAt of NewIOBitReadSeeker(bytes.NewReader(data) | file) at a non-negative offset -/
 theorem ioBits_raw_readAt (d : Nat) (data : List UInt8) (p : Nat) (f : Bool) (buf : List UInt8) (n off : Nat) :
@@ -230,7 +232,7 @@ theorem zero_readAt_sound (pos nb n off : Nat) :
       refine ⟨_, rfl, ?_⟩
       have := soundAt_mk (List.replicate nb false) off n (min n (nb - off)) (List.replicate (min n (nb - off)) false) none
         (by omega) (slice_replicate _ _ _ (by omega)) (Or.inl (by simp; omega)) (by intro h; cases h)
-        (by intro _ hn hl; simp at hl; omega) (Or.inl rfl)
+        (by intro _ hn hl; simp at hl; omega) (Or.inl rfl) (by intro h1 _; simp at h1; omega)
       simpa using this
 
 /-! ### SectionReader -/
@@ -241,10 +243,11 @@ theorem soundAt_sect (d : Bits) (base L off n n' : Nat) (res : Res) (h : SoundAt
     SoundAt (slice d base L) off n res := by
   have hlen : (slice d base L).length = L := slice_length _ _ _ hL
   have hk : res.bits.length ≤ L - off := by have := h.le; omega
-  refine ⟨h.cnt, by have := h.le; omega, ?_, Or.inl (by rw [hlen]; omega), ?_, ?_, ?_, h.noq⟩
+  refine ⟨h.cnt, by have := h.le; omega, ?_, Or.inl (by rw [hlen]; omega), ?_, ?_, ?_, ?_, h.noq⟩
   · rw [slice_slice _ _ _ _ _ (by omega)]; exact h.bits
   · intro he; have := h.eof he; rw [hlen]; omega
   · intro he hn _; exact h.prog he (by omega) (by omega)
+  · intro h1 _; rw [hlen] at h1; omega
   · rcases h.errs with h1 | h1 | ⟨_, h2, _⟩
     · exact Or.inl h1
     · exact Or.inr (Or.inl h1)
@@ -412,7 +415,7 @@ theorem multi_readAt_sound (sub : Sub) (P : Rd → Prop) (rs : List Rd) (hall : 
         rw [← this]; exact h2.bits
       have htot := congrArg List.length hsplit
       simp only [List.length_append] at htot
-      refine ⟨h2.cnt, h2.le, hbits, ?_, ?_, ?_, ?_, h2.noq⟩
+      refine ⟨h2.cnt, h2.le, hbits, ?_, ?_, ?_, (fun h1 _ => by omega), ?_, h2.noq⟩
       · dsimp only
         rcases hk with h | h
         · left; omega
@@ -642,7 +645,7 @@ theorem limit_read_sound' (d : Nat) (r : Rd) (m : Nat) (hr : WFd d r) (hrd : isR
     refine ⟨r', res, ?_, ?_, h3, h5, h4, h6, hk⟩
     · rw [h1]; simp only [ok_bind, h2.cnt, Int.toNat_natCast]
     · have hlen : ((den r).take (posOf r + m)).length = min (posOf r + m) (den r).length := by simp
-      refine ⟨h2.cnt, by have := h2.le; split at this <;> omega, ?_, ?_, ?_, ?_, ?_, h2.noq⟩
+      refine ⟨h2.cnt, by have := h2.le; split at this <;> omega, ?_, ?_, ?_, ?_, ?_, ?_, h2.noq⟩
       · rw [slice_take _ _ _ _ (by omega)]; exact h2.bits
       · rcases h2.inb with h | h
         · left; rw [hlen]; omega
@@ -651,6 +654,9 @@ theorem limit_read_sound' (d : Nat) (r : Rd) (m : Nat) (hr : WFd d r) (hrd : isR
       · intro he hn hp
         rw [hlen] at hp
         exact h2.prog he (by split <;> omega) (by omega)
+      · intro h1 hn
+        rw [hlen] at h1
+        exact h2.endErr (by omega) (by split <;> omega)
       · rcases h2.errs with h | h | ⟨h, h', h''⟩
         · exact Or.inl h
         · exact Or.inr (Or.inl h)
